@@ -6,7 +6,7 @@ from lib import vf
 RULE_F = ("edge/vertex lists (0-18 vertices, 0-65 edges, hub vertices so that degrees run from 0 to well above 5, parallel "
           "edges, self loops, isolated vertices) rendered as real CSV files under the stream's data/ directory: plain / gzip "
           "with .gz / gzip WITHOUT .gz, with / without trailing newline, LF / CRLF, shuffled + extra columns in both files (extra column names drawn from plausible aliases / near-misses of the real ones - lon, lat, X, id, src, length ... - holding other numbers, in every position; extra TEXT columns first / middle / last holding CSV-special content: leading '#', ';', quoted fields with commas and quotes, spaces, empty, NaN, 3000-character fields), "
-          "padded fields, exponent notation, coordinates as k/4 or (one case in five) as 17-36 digit decimals at / just above / just below the midpoint of two adjacent f32 values, explicit (true / arbitrary) or scanned n_edges / n_vertices; loaded through "
+          "padded fields, exponent notation, coordinates as k/4 or (one case in five) as 17-36 digit decimals at / just above / just below the midpoint of two adjacent f32 values, explicit (true / arbitrary) or scanned n_edges / n_vertices; some cases form a SEQUENCE of 2-3 loads in the one harness process at the SAME two paths, the files rewritten with the other compression / other rows / other sizes, each load judged on its own; loaded through "
           "Graph::from_files or DefaultGraphBuilder::build (the call CompassApp makes); every accessor printed: sizes, "
           "get_edge / get_vertex past the end, out_edges / in_edges, adj / rev through iter() (len / get asserted "
           "consistent), src / dst / incident_vertex, edge_triplet, incident_edges, incident_triplet_ids / _attributes in "
@@ -19,8 +19,30 @@ RULE_F = ("edge/vertex lists (0-18 vertices, 0-65 edges, hub vertices so that de
 RULE_T = ("per-edge tables written as files (plain / .gz / gzip without extension, with / without trailing newline, 0-75 rows) "
           "and loaded through the readers the models use: read_raw_file + read_decoders::default::<Speed> (and "
           "SpeedTraversalEngine::new, asserted to hold the same table), ::<Grade>, read_decoders::u8 (road classes), "
-          "from_csv::<EdgeHeading> (with header, half of the cases with an extra first text column of CSV-special content); row i of the loaded table compared with the value written on row i; "
+          "sequences of loads at the same path with the other compression; from_csv::<EdgeHeading> (with header, half of the cases with an extra first text column of CSV-special content); row i of the loaded table compared with the value written on row i; "
           "one case in eight has an undecodable line (specification: the whole load must fail, no shifted table). Non-trivial = >= 2 rows, all decodable")
+
+
+RULE_B = ("LARGE files (edge / vertex files around and above 1 MiB on disk: 30k-140k rows, plain and gzip, one case whose "
+          "COMPRESSED size exceeds 1 MiB, one ~3 MiB edge file) loaded through Graph::from_files. This stream is decided by "
+          "a HARNESS-SIDE specification, not by Coq (evaluating 50k rows in Coq is too slow): the rows are a pure function "
+          "of the case parameters; H = digest of what the rows say (rolling hash of (i, id, src, dst, distance bits) in row "
+          "order = 'row i is edge i', the same for vertices with f32 coordinate bits, out / in edge lists of EVERY vertex "
+          "in row order, sizes, first row whose id is not its index), I = the same digest computed from get_edge(0..n), "
+          "get_vertex(0..n), out_edges / in_edges of the loaded graph; a replay names the generated file parameters")
+
+
+def compare_big(chk, r):
+    """I (implementation digest) against H (digest of the rows, computed by the harness)"""
+    I, H = r.impl.get("I", {}), r.impl.get("H", {})
+    for e in r.errors:
+        chk.violation("broken-correspondence", "big", {"file": e["file"]}, e["error"][-800:], "harness runs",
+                      detail="harness failed on this stream", found=False, key="err-big")
+    for cid, case in r.cases.items():
+        i, h = I.get(cid), H.get(cid)
+        if i != h or h is None:
+            chk.violation("impl-counterexample", "big", case, i, h,
+                          detail="digest of the loaded graph's accessors differs from the digest of the rows written to the files")
 
 
 def classify(case, i, m, s):
@@ -60,13 +82,17 @@ def run(chk):
     quick = chk.tier == "quick"
     corpus = ["--corpus", os.path.join(vf.ROOT, "corpus", "C15")]   # witnesses, replayed first in each stream
     if _is(chk, "files"):
-        r = vf.run_stream(binp, "files", 520 if quick else 6000, chk.seed, os.path.join(chk.outdir, "files"), extra=corpus, replay=chk.replay)
+        r = vf.run_stream(binp, "files", 560 if quick else 6000, chk.seed, os.path.join(chk.outdir, "files"), extra=corpus, replay=chk.replay)
         chk.add_stream(r, RULE_F)
         vf.compare(chk, r, classify=classify, binpath=binp, extra=corpus)
     if _is(chk, "tables"):
-        r2 = vf.run_stream(binp, "tables", 310 if quick else 3000, chk.seed, os.path.join(chk.outdir, "tables"), extra=corpus, replay=chk.replay)
+        r2 = vf.run_stream(binp, "tables", 320 if quick else 3000, chk.seed, os.path.join(chk.outdir, "tables"), extra=corpus, replay=chk.replay)
         chk.add_stream(r2, RULE_T)
         vf.compare(chk, r2, classify=classify, binpath=binp, extra=corpus)
+    if _is(chk, "big"):
+        r3 = vf.run_stream(binp, "big", 4 if quick else 10, chk.seed, os.path.join(chk.outdir, "big"), extra=corpus, shards=1, replay=chk.replay)
+        chk.add_stream(r3, RULE_B)
+        compare_big(chk, r3)
     if chk.broken_obligation:
         chk.violation("broken-obligation", "proofs", {"obligations": chk.broken_obligation}, "does not check", "Qed",
                       found=False, key="obligation")
